@@ -393,7 +393,7 @@ func TestC15(t *testing.T) {
 	r.Assume("absent tag compares as the empty string (InfluxQL)", "tag-to-tag comparisons, _name and field references are outside the property")
 	rep := newGixReporter(r, 3)
 
-	nSets := r.N(60, 200)
+	nSets := r.N(180, 400)
 	perSet := r.N(50, 1500)
 	var exh []*c15Expr
 	exhSets := 0
